@@ -290,3 +290,47 @@ func CovReplay(c *core.Ctx, id string) {
 		c.Count("distilled_corpus_inputs", 1)
 	}
 }
+
+// FamilyReplay runs the scalable input families (wl.DeepFamilies: nesting, long runs, and counted structures such as n
+// footnotes referenced out of order or n definitions) at every boundary size through the per-case oracle.  Thresholds at
+// which an implementation changes algorithm or recycles a buffer are not known in advance; boundary sizes on both sides
+// of powers of two and of round numbers are where they sit.
+func FamilyReplay(c *core.Ctx, id string) {
+	if !FuzzServes(id) || id == "C01" || id == "C05" || id == "C12" {
+		return // C01, C05 and C12 run the families in their own workloads
+	}
+	k := c.N(2, 8)
+	idx := 0
+	for fi, fam := range wl.DeepFamilies {
+		for _, n := range wl.BoundarySizes {
+			if fi < wl.FirstLimitFamily && n > 257 {
+				continue
+			}
+			idx++
+			if !c.Mine(idx) {
+				continue
+			}
+			d := fam.Gen(n)
+			if len(d) > 1<<18 {
+				continue
+			}
+			for j := 0; j < k; j++ {
+				sel := uint16((idx*13 + j*101 + int(c.Seed)*7) & 0xffff)
+				c.Begin("cov:"+fmt.Sprint(sel), d)
+				r := FuzzOne(id, sel, d)
+				c.End()
+				c.Eval()
+				c.Count("family_cases", 1)
+				if r.Bad {
+					c.Observe("families_with_violations", fam.Name)
+					if c.Seen(r.Class, r.Locus) {
+						c.Violation(&core.Violation{Class: r.Class, Locus: r.Locus, Config: r.Config, Input: r.Input})
+						continue
+					}
+					c.Violation(&core.Violation{Class: r.Class, Locus: r.Locus, Config: r.Config, Input: r.Input, Script: r.Script,
+						Detail: fmt.Sprintf("family %s at size %d\n%s", fam.Name, n, r.Detail)})
+				}
+			}
+		}
+	}
+}
